@@ -123,6 +123,31 @@ impl Sc {
 // `Float::sqrt(x)` path form
 pub struct Float {}
 impl Float { #[verifier::external_body] pub fn sqrt(x: Sc) -> (r: Sc) ensures r@ == r_sqrt(x@) { unimplemented!() } }
+
+// ---- A4: approx comparisons on the model scalar with default tolerances (uninterpreted; only the facts below are assumed)
+pub uninterp spec fn s_ulps_eq(a: Sc, b: Sc, eps: Sc, max_ulps: u32) -> bool;
+pub uninterp spec fn s_abs_diff_eq(a: Sc, b: Sc, eps: Sc) -> bool;
+pub uninterp spec fn s_relative_eq(a: Sc, b: Sc, eps: Sc, max_rel: Sc) -> bool;
+pub uninterp spec fn s_default_epsilon() -> Sc;
+pub uninterp spec fn s_default_max_relative() -> Sc;
+pub uninterp spec fn s_default_max_ulps() -> u32;
+pub open spec fn s_ulps_eq_default(a: Sc, b: Sc) -> bool { s_ulps_eq(a, b, s_default_epsilon(), s_default_max_ulps()) }
+pub open spec fn s_abs_diff_eq_default(a: Sc, b: Sc) -> bool { s_abs_diff_eq(a, b, s_default_epsilon()) }
+#[verifier::external_body] pub proof fn ax_approx_refl(x: Sc) ensures s_ulps_eq_default(x, x), s_abs_diff_eq_default(x, x) {}
+#[verifier::external_body] pub proof fn ax_approx_zero_sep(x: Sc) requires r_abs(x@) > 1real / 1000000real ensures !s_ulps_eq_default(x, s_zero()), !s_abs_diff_eq_default(x, s_zero()) {}
+// rule R13: `ulps_eq!(a, b)` expands to `::approx::Ulps::default().eq(&a, &b)`; forwarded to the type's ulps_eq with default tolerances
+pub trait ApproxModel: Sized {
+    spec fn ulps_eq_default_spec(a: Self, b: Self) -> bool;
+    spec fn abs_diff_eq_default_spec(a: Self, b: Self) -> bool;
+}
+impl ApproxModel for Sc {
+    open spec fn ulps_eq_default_spec(a: Sc, b: Sc) -> bool { s_ulps_eq_default(a, b) }
+    open spec fn abs_diff_eq_default_spec(a: Sc, b: Sc) -> bool { s_abs_diff_eq_default(a, b) }
+}
+#[verifier::external_body] pub fn ulps_default_eq<T: ApproxModel>(a: &T, b: &&T) -> (r: bool) ensures r == T::ulps_eq_default_spec(*a, **b) { unimplemented!() }
+#[verifier::external_body] pub fn ulps_default_ne<T: ApproxModel>(a: &T, b: &&T) -> (r: bool) ensures r == !T::ulps_eq_default_spec(*a, **b) { unimplemented!() }
+#[verifier::external_body] pub fn abs_diff_default_eq<T: ApproxModel>(a: &T, b: &&T) -> (r: bool) ensures r == T::abs_diff_eq_default_spec(*a, **b) { unimplemented!() }
+#[verifier::external_body] pub fn abs_diff_default_ne<T: ApproxModel>(a: &T, b: &&T) -> (r: bool) ensures r == !T::abs_diff_eq_default_spec(*a, **b) { unimplemented!() }
 // ---- rule R9: panic entry points
 #[verifier::external_body] pub fn vpanic() -> ! requires false { loop {} }
 #[verifier::external_body] pub fn diverge() -> ! ensures false { loop {} }
